@@ -7,7 +7,10 @@
 (*   - at most one dial per address in flight;                             *)
 (*   - a successful request returns a connection produced by a dial for    *)
 (*     that address which is not shut down; a failed request was cancelled *)
-(*     on entry or overlapped a failed dial (shared outcome);              *)
+(*     on entry or overlapped a failed dial (shared outcome) - a request   *)
+(*     naming a dialer the manager does not have counts as a dial that     *)
+(*     fails at once; once a request has returned the failure of a dial    *)
+(*     the manager has forgotten that dial: later requests start afresh;   *)
 (*   - a connection is never observed shut down while somebody who got it  *)
 (*     has not started to release it;                                      *)
 (*   - when the last holder's release returns and no request for that      *)
@@ -26,11 +29,13 @@ VARIABLES l,
           pending,    \* addr |-> number of Connection() calls in progress
           fails,      \* addr |-> number of failed dials so far
           call,       \* goroutine |-> [addr, fc0, lf0, cancelled] of its Connection() call in progress
-          lastFail,   \* addr |-> the last dial for addr failed and no new dial has started since
-          relBusy     \* conn id |-> number of first releases that have started and not returned
+          lastFail,   \* addr |-> id of the last dial for addr if it failed, no new dial has started since and nobody
+                      \*          who began after it has returned its failure yet (0 otherwise)
+          relBusy,    \* conn id |-> number of first releases that have started and not returned
+          vpend       \* addr |-> number of requests naming an unknown dialer in progress
 
 Trace == ndJsonDeserialize(IOEnv.TRACE)
-tvars == <<l, inflight, connAddr, holders, handle, pending, fails, call, lastFail, relBusy>>
+tvars == <<l, inflight, connAddr, holders, handle, pending, fails, call, lastFail, relBusy, vpend>>
 Ev == Trace[l]
 St(name) == l <= Len(Trace) /\ Trace[l].ev = name /\ l' = l + 1
 
@@ -43,12 +48,12 @@ ShutOK(h, shut) == \A c \in SeqSet(shut) : Get(h, c) = 0
 
 TInit ==
     /\ l = 1 /\ inflight = <<>> /\ connAddr = <<>> /\ holders = <<>> /\ handle = <<>>
-    /\ pending = <<>> /\ fails = <<>> /\ call = <<>> /\ lastFail = <<>> /\ relBusy = <<>> /\ TLCSet(1, 1)
+    /\ pending = <<>> /\ fails = <<>> /\ call = <<>> /\ lastFail = <<>> /\ relBusy = <<>> /\ vpend = <<>> /\ TLCSet(1, 1)
 
 TReset ==
     /\ St("reset")
     /\ inflight' = <<>> /\ connAddr' = <<>> /\ holders' = <<>> /\ handle' = <<>>
-    /\ pending' = <<>> /\ fails' = <<>> /\ call' = <<>> /\ lastFail' = <<>> /\ relBusy' = <<>>
+    /\ pending' = <<>> /\ fails' = <<>> /\ call' = <<>> /\ lastFail' = <<>> /\ relBusy' = <<>> /\ vpend' = <<>>
 
 TDialStart ==
     /\ St("dialstart")
@@ -56,7 +61,7 @@ TDialStart ==
     /\ ShutOK(holders, Ev.shut) = TRUE
     /\ inflight' = Put(inflight, Ev.addr, Ev.d)
     /\ lastFail' = Put(lastFail, Ev.addr, 0)
-    /\ UNCHANGED <<connAddr, holders, handle, pending, fails, call, relBusy>>
+    /\ UNCHANGED <<connAddr, holders, handle, pending, fails, call, relBusy, vpend>>
 
 TDialEnd ==
     /\ St("dialend")
@@ -65,17 +70,20 @@ TDialEnd ==
     /\ inflight' = Put(inflight, Ev.addr, 0)
     /\ IF Ev.ok THEN connAddr' = Put(connAddr, Ev.conn, Ev.addr) /\ UNCHANGED <<fails, lastFail>>
        ELSE /\ fails' = Put(fails, Ev.addr, Get(fails, Ev.addr) + 1)
-            /\ lastFail' = Put(lastFail, Ev.addr, 1)
+            /\ lastFail' = Put(lastFail, Ev.addr, Ev.d)
             /\ UNCHANGED connAddr
-    /\ UNCHANGED <<holders, handle, pending, call, relBusy>>
+    /\ UNCHANGED <<holders, handle, pending, call, relBusy, vpend>>
 
 TConnInv ==
     /\ St("inv") /\ Ev.op = "Connection"
     /\ ShutOK(holders, Ev.shut) = TRUE
     /\ pending' = Put(pending, Ev.addr, Get(pending, Ev.addr) + 1)
+    \* a request naming an unknown dialer is, for everybody overlapping it, a dial that may fail at any moment
     /\ call' = Put(call, Ev.g, [addr |-> Ev.addr, fc0 |-> Get(fails, Ev.addr), lf0 |-> Get(lastFail, Ev.addr),
-                                cancelled |-> Ev.cancelled])
-    /\ UNCHANGED <<inflight, connAddr, holders, handle, fails, lastFail, relBusy>>
+                                cancelled |-> Ev.cancelled, nodialer |-> Ev.nodialer, vp0 |-> Get(vpend, Ev.addr) > 0])
+    /\ vpend' = IF Ev.nodialer THEN Put(vpend, Ev.addr, Get(vpend, Ev.addr) + 1) ELSE vpend
+    /\ fails' = IF Ev.nodialer THEN Put(fails, Ev.addr, Get(fails, Ev.addr) + 1) ELSE fails
+    /\ UNCHANGED <<inflight, connAddr, holders, handle, lastFail, relBusy>>
 
 TConnRet ==
     /\ St("ret") /\ Ev.op = "Connection"
@@ -89,11 +97,17 @@ TConnRet ==
                /\ ShutOK(holders', Ev.shut) = TRUE
           \* a failed request was cancelled on entry, overlapped a failed dial, or joined the entry of
           \* the last failed dial while the manager was still forgetting it
-          ELSE /\ (c.cancelled \/ Get(fails, c.addr) > c.fc0 \/ c.lf0 = 1) = TRUE
+          ELSE /\ (c.cancelled \/ Get(fails, c.addr) > c.fc0 \/ c.lf0 # 0 \/ c.nodialer \/ c.vp0) = TRUE
                /\ handle' = Put(handle, Ev.h, [conn |-> 0, released |-> TRUE, first |-> ""])
                /\ ShutOK(holders, Ev.shut) = TRUE
                /\ UNCHANGED holders
-    /\ UNCHANGED <<inflight, connAddr, fails, call, lastFail, relBusy>>
+       \* the waiters of a failed dial are woken after the manager has forgotten it: a request that began after
+       \* that dial had failed (lf0), was not cancelled and returns a failure proves that nothing of the dial
+       \* lingers for requests begun later
+       /\ lastFail' = IF Ev.res # "conn" /\ ~c.cancelled /\ c.lf0 # 0 /\ c.lf0 = Get(lastFail, c.addr) /\ ~c.nodialer /\ ~c.vp0
+                       THEN Put(lastFail, c.addr, 0) ELSE lastFail
+       /\ vpend' = IF c.nodialer THEN Put(vpend, c.addr, Get(vpend, c.addr) - 1) ELSE vpend
+    /\ UNCHANGED <<inflight, connAddr, fails, call, relBusy>>
 
 TDoneInv ==
     /\ St("inv") /\ Ev.op = "Done"
@@ -103,7 +117,7 @@ TDoneInv ==
             /\ handle' = Put(handle, Ev.h, [h EXCEPT !.released = TRUE, !.first = Ev.g])
             /\ relBusy' = Put(relBusy, h.conn, Get(relBusy, h.conn) + 1)
     /\ ShutOK(holders', Ev.shut) = TRUE
-    /\ UNCHANGED <<inflight, connAddr, pending, fails, call, lastFail>>
+    /\ UNCHANGED <<inflight, connAddr, pending, fails, call, lastFail, vpend>>
 
 (* the release that actually gives the reference back is the first call of  *)
 (* the done function; when the last of them has returned and nobody is      *)
@@ -117,13 +131,13 @@ TDoneRet ==
        /\ handle' = IF first THEN Put(handle, Ev.h, [h EXCEPT !.first = ""]) ELSE handle
        /\ (h.conn # 0 /\ holders[h.conn] = 0 /\ Get(relBusy', h.conn) = 0 /\ Get(pending, connAddr[h.conn]) = 0)
             => h.conn \in SeqSet(Ev.shut)
-    /\ UNCHANGED <<inflight, connAddr, holders, pending, fails, call, lastFail>>
+    /\ UNCHANGED <<inflight, connAddr, holders, pending, fails, call, lastFail, vpend>>
 
 TFinal ==
     /\ St("final")
     /\ (\A c \in DOMAIN connAddr : Get(holders, c) = 0 /\ c \in SeqSet(Ev.shut)) = TRUE
     /\ (\A a \in DOMAIN inflight : inflight[a] = 0) = TRUE
-    /\ UNCHANGED <<inflight, connAddr, holders, handle, pending, fails, call, lastFail, relBusy>>
+    /\ UNCHANGED <<inflight, connAddr, holders, handle, pending, fails, call, lastFail, relBusy, vpend>>
 
 TNext == TReset \/ TDialStart \/ TDialEnd \/ TConnInv \/ TConnRet \/ TDoneInv \/ TDoneRet \/ TFinal
 TSpec == TInit /\ [][TNext]_tvars
